@@ -1052,10 +1052,13 @@ def run(chk, replay=None):
             rng.shuffle(rest)
             chosen = [p for p in chosen if p in keep] + rest[:45]
         for i, p in enumerate(sorted(chosen)):
-            cases.append(gen_tzfile_case("tz%d" % i, p, tables[p], rng, 60 if quick else 1500))
+            cases.append(gen_tzfile_case("tz%d" % i, p, tables[p], rng, 60 if quick else 3000))
         chk.cov["zone_files_probed"] = len(chosen)
+        chk.cov["zone_transitions_probed"] = sum(len([1 for (u, i) in tables[p].trans if abs(u) <= 3 * 10 ** 10]) for p in chosen)
+        chk.cov["zone_probe_offsets_s"] = sorted(set(DELTAS + [-d for d in DELTAS]))
+        chk.cov["days_compared_with_gmtime_timegm"] = JLAST - JFIRST + 1
         cases += gen_tzif(files, rng, quick)
-        cases += gen_syn_tables(rng, 400 if quick else 6000)
+        cases += gen_syn_tables(rng, 400 if quick else 10000)
         cases += gen_text(rng, 3000 if quick else 60000)
         cases += gen_inet(rng, 300 if quick else 5000, 60 if quick else 1200)
 
